@@ -51,6 +51,9 @@ type verifPage struct {
 type verifPagingIn struct {
 	Pages []verifPage `json:"pages"`
 	Sizes []uint      `json:"sizes"`
+	/* set when a session is run again to see whether what it showed shows again: the choices the first run drew */
+	Style    *int  `json:"style,omitempty"`
+	Embedded *bool `json:"embedded_again,omitempty"`
 }
 
 func verifItems(p, n int) []any {
@@ -138,9 +141,14 @@ func minInt(a, b int) int {
 	return b
 }
 
+var verifLastStyle int
+
 func verifRunPaging(out *verifkit.Trace, rng *rand.Rand, sim *verifsim.Sim, sid int, in verifPagingIn, extraCalls int) {
 	ordered := rng.Intn(2) == 0
 	embedded := verifAcyclic(in.Pages) && rng.Intn(2) == 0
+	if in.Embedded != nil {
+		embedded = *in.Embedded && verifAcyclic(in.Pages)
+	}
 	var root *Collection
 	var err error
 	jtp.VerifSetCache(64)
@@ -163,6 +171,10 @@ func verifRunPaging(out *verifkit.Trace, rng *rand.Rand, sim *verifsim.Sim, sid 
 		   cursors that differ in letter case only; or one canonical path with a page number, every page also reachable
 		   under an alias that serves the same document (whose id names the canonical address), next links relative */
 		style := rng.Intn(5)
+		if in.Style != nil {
+			style = *in.Style
+		}
+		verifLastStyle = style
 		pagePath := func(p int) string {
 			switch {
 			case p == 1:
@@ -262,7 +274,7 @@ func verifRunPaging(out *verifkit.Trace, rng *rand.Rand, sim *verifsim.Sim, sid 
 	ev := verifkit.M{"ev": "paging", "sid": sid, "pages": pagesOut, "embedded": embedded, "ordered": ordered, "panic": false}
 	/* a session that does not finish is an observation too: the whole process is given up */
 	watchdog := time.AfterFunc(6*time.Second, func() {
-		out.Emit(verifkit.M{"ev": "hang", "sid": sid})
+		out.Emit(verifkit.M{"ev": "hang", "sid": sid, "style": verifLastStyle})
 		os.Exit(3)
 	})
 	defer watchdog.Stop()
